@@ -8,6 +8,8 @@ pub const SUFFIX_POOL: &[&str] = &[
     "V", "MV", "KV", "UV", "A", "MA", "UA", "NA", "KA", "HZ", "KHZ", "MHZ", "GHZ", "MAHZ", "S", "MS", "US", "NS", "MIN", "HR", "D", "OHM", "KOHM", "MOHM", "GOHM",
     "W", "MW", "KW", "MAW", "DBM", "DBV", "DBMV", "DB", "PCT", "PPM", "CEL", "FAR", "K", "F", "UF", "NF", "PF", "H", "MH", "UH", "J", "KJ", "MJ", "MAJ", "RAD", "DEG",
     "VPK", "VPP", "VRMS", "V/S", "M/S2", "A.HR", "W.HR", "KG.M/S", "M-1", "SIE", "MSIE", "C", "MC", "AH", "MAH", "ABCDEFGHIJKL",
+    // the full suffix grammar of 488.2 7.7.3.2: a unit exponent followed by further units, a leading '/', negative exponents inside
+    "V2/HZ", "M2.S", "S-1.M", "KG.M2/S3", "/S", "/M2", "W/M2.K", "M-2.S2", "A2.S4/KG.M2", "/M2.S-1",
 ];
 
 pub fn ws0(rng: &mut Rng, out: &mut Vec<u8>) {
